@@ -2,7 +2,7 @@
 import copy
 import random
 
-from ..engines import delegation, envelope, rootchain
+from ..engines import delegation, envelope, rootchain, threads
 from . import c03
 from ..gen import entries as gentries, keys as gkeys, metadata as gmd
 from ..monitors import boundary
@@ -34,6 +34,8 @@ def plan(tier, seed):
         specs.append({"kind": "strip_deleg", "count": 600 if q else 5000})
     for _ in range(2 if q else 6):
         specs.append({"kind": "strip_root", "count": 400 if q else 3000})
+    for T in ([4, 8] if q else [2, 4, 8, 16]):
+        specs.append({"kind": "threads", "threads": T, "count": 250 if q else 2000})
     return specs
 
 
@@ -118,7 +120,7 @@ def run_confusion(spec, rec, lib):
         elif shape == "no_delegations":
             usigned["delegations"] = {}
         elif shape == "big_version":
-            usigned["version"] = 2**64
+            usigned["version"] = rng.choice([2**64, 2**1024, 10**400])
         elif shape == "odd_spec_version":
             usigned["metadata_spec_version"] = rng.choice(["", "99.0.0", "not-a-version"])
         rec.hist("confusion_shape", shape)
@@ -262,7 +264,21 @@ def run_strip_root(spec, rec, lib):
                     break
 
 
+def run_threads(spec, rec, lib):
+    """an acceptance must be explained by the envelope's own valid authorized signatures, also when other
+    envelopes are being verified at the same time"""
+    rng = random.Random(spec["seed"])
+    for case, model, out in threads.run(lib, rng, spec["count"], spec["threads"], rec, spec["seed"]):
+        rec.case("thr|%d|%s" % (spec["threads"], envelope.distinct_key(case)))
+        if out.accepted and model.v == models.REJECT:
+            rec.violation("strip-invariance/verify_signable/accepted-without-own-valid-signatures-under-threads",
+                          "accepted under %d threads although the envelope itself carries only %d counting signatures for threshold %r"
+                          % (spec["threads"], len(model.counted), case["threshold"]), case)
+
+
 def run_shard(spec, rec, lib):
+    if spec["kind"] == "threads":
+        return run_threads(spec, rec, lib)
     {"confusion": run_confusion, "strip_env": run_strip_env, "strip_deleg": run_strip_deleg, "strip_root": run_strip_root}[
         spec["kind"]](spec, rec, lib)
 
